@@ -108,6 +108,22 @@ FLOAT_MODE = 'bits'
 BR.struct = _StructStub
 
 
+class _NpProxy:
+    """hail.expr.types sees numpy through this proxy: identical except that np.prod returns a Python int —
+    CrossHair's patched range() rejects numpy integers (`range(np.prod(shape, dtype=np.int64))` in
+    tndarray._convert_from_encoding), plain Python accepts them via __index__"""
+
+    def __getattr__(self, name):
+        return getattr(np, name)
+
+    @staticmethod
+    def prod(*a, **k):
+        return int(np.prod(*a, **k))
+
+
+T.np = _NpProxy()
+
+
 def _float_hook(t, P):
     if t == T.tfloat32:
         return Bits(32, P.nx('j') + 2 ** 31)
@@ -192,9 +208,10 @@ def etype(t, req_override=None):
     def R(r):
         return r if req_override is None else req_override
 
-    prim = {T.tint32: 'TInt32', T.tint64: 'TInt64', T.tfloat32: 'TFloat32', T.tfloat64: 'TFloat64', T.tbool: 'TBoolean',
-            T.tstr: 'TString', T.tcall: 'TCall'}
-    for k, nm in prim.items():
+    # (a list, not a dict: hashing a HailType calls hash(str), which CrossHair makes symbolic)
+    prim = [(T.tint32, 'TInt32'), (T.tint64, 'TInt64'), (T.tfloat32, 'TFloat32'), (T.tfloat64, 'TFloat64'), (T.tbool, 'TBoolean'),
+            (T.tstr, 'TString'), (T.tcall, 'TCall')]
+    for k, nm in prim:
         if t == k:
             et, r = tab[nm]
             return (et, R(r), nm)
@@ -343,11 +360,11 @@ def catalogue(tier):
     nd = [T.tndarray(T.tint32, 1), T.tndarray(T.tint32, 2), T.tndarray(T.tint64, 2), T.tndarray(T.tfloat32, 2),
           T.tndarray(T.tfloat64, 1), T.tndarray(T.tfloat64, 2), T.tndarray(T.tfloat64, 3)]
     q = list(prims) + [T.tarray(T.tint32), (T.tarray(T.tbool), LONG), T.tarray(T.tstr), T.tset(T.tint64), T.tdict(T.tstr, T.tint32),
-                       T.tstruct(a=T.tfloat64, b=T.tcall), T.ttuple(L, T.tbool, T.tstr), T.tinterval(T.tint32),
-                       nd[1], nd[6], T.tarray(T.tstruct(a=T.tint32, b=T.tstr)), T.tdict(T.tstr, T.tarray(T.tint32))]
+                       T.tstruct(a=T.tfloat64, b=T.tbool), T.ttuple(L, T.tbool, T.tstr), T.tinterval(T.tint32),
+                       nd[1], nd[6], T.tarray(T.tstruct(a=T.tint32, b=T.tstr))]
     if tier == 'quick':
         return q
-    out = list(q)
+    out = list(q) + [T.tstruct(a=T.tfloat64, b=T.tcall), T.tdict(T.tstr, T.tarray(T.tint32))]
     out += [T.tarray(p) for p in prims] + [T.tset(p) for p in (T.tint32, T.tstr, T.tcall, L)]
     out += [T.tdict(T.tint32, T.tfloat64), T.tdict(L, T.tcall), T.tdict(T.tstr, T.tstr), (T.tarray(T.tint64), LONG)]
     out += [T.tstruct(), T.tstruct(a=T.tint32, b=T.tstr, c=T.tbool), T.ttuple(), T.ttuple(T.tfloat32, T.tcall)]
@@ -380,6 +397,7 @@ def has_ndarray(t):
 
 
 TYPES = []
+ETYPES = []     # etype() of every catalogue entry, computed once at import of the generated module
 
 
 def entry(k):
@@ -406,7 +424,7 @@ def check(k, v):
     """(round_trip_ok, layout_ok)"""
     t, _ = entry(k)
     enc = encode(t, v)
-    ref = ref_encode(etype(t), v, [])
+    ref = ref_encode(ETYPES[k], v, [])
     layout = len(enc) == len(ref) and all(a == b for a, b in zip(enc, ref))
     back = decode(t, enc)
     return J.eq(t, v, back), layout
@@ -439,5 +457,6 @@ def reach_{K}({SIG}) -> bool:
 def source(tier, ks):
     pre = J.PRE.format(N1MAX=1 if tier == 'quick' else 2)
     return (f'from harness import C33_enc as H\nH.TYPES[:] = H.catalogue({tier!r})\n'
+            'H.ETYPES[:] = [H.etype(H.entry(k)[0]) for k in range(len(H.TYPES))]\n'
             'property_holds = H.property_holds\nvalue = H.value\nencode = H.encode\nentry = H.entry\n'
             + '\n'.join(TEMPLATE.format(K=k, SIG=J.SIG, PRE=pre, ARGS=J.ARGS) for k in ks))
